@@ -32,6 +32,7 @@ import (
 	"gitlab.com/yawning/obfs4.git/common/csrand"
 	"gitlab.com/yawning/obfs4.git/common/uniformdh"
 	"gitlab.com/yawning/obfs4.git/transports"
+	"gitlab.com/yawning/obfs4.git/transports/base"
 
 	"verif/memwire"
 	"verif/mon"
@@ -317,9 +318,9 @@ type params struct {
 	coalesce          bool
 	refKey            int // key class of the reference side, -1 PRNG
 	refAlt            bool
-	steerKey          int // key class forced on the real side through csrand.Reader, -1 none (reference pairings only)
-	steerPad          int // -1 none; bit0: phase-1 padding of the real side max (else 0), bit1: same for phase 2
-	big               int // > 0: both sides' scripts contain single large writes from bigMenu
+	steerKey          int  // key class forced on the real side through csrand.Reader, -1 none (reference pairings only)
+	steerPad          int  // -1 none; bit0: phase-1 padding of the real side max (else 0), bit1: same for phase 2
+	big               int  // > 0: both sides' scripts contain single large writes from bigMenu
 	tiny              bool // the applications' first 60 reads use buffers of 1..24 bytes
 	seed              uint64
 }
@@ -384,16 +385,27 @@ func realClient(w net.Conn) (net.Conn, error) {
 	return cf.Dial("tcp", "192.0.2.2:443", func(string, string) (net.Conn, error) { return w, nil }, pa)
 }
 
+// One server factory serves every connection of the process, as a bridge's
+// does: whatever it remembers from one connection is there for the next.
+var (
+	srvOnce    sync.Once
+	srvFactory base.ServerFactory
+	srvErr     error
+)
+
 func realServer(w net.Conn) (net.Conn, error) {
-	t := transports.Get("obfs3")
-	if t == nil {
-		return nil, fmt.Errorf("obfs3 transport not registered")
+	srvOnce.Do(func() {
+		t := transports.Get("obfs3")
+		if t == nil {
+			srvErr = fmt.Errorf("obfs3 transport not registered")
+			return
+		}
+		srvFactory, srvErr = t.ServerFactory("", &pt.Args{})
+	})
+	if srvErr != nil {
+		return nil, srvErr
 	}
-	sf, err := t.ServerFactory("", &pt.Args{})
-	if err != nil {
-		return nil, err
-	}
-	return sf.WrapConn(w)
+	return srvFactory.WrapConn(w)
 }
 
 // installSteer replaces crypto/rand.Reader (read by csrand on every call) and
